@@ -83,6 +83,17 @@ pub fn run(ctx: &Ctx) {
         tx.data = filler_bytes(ctx.seed, 0xE9 + i, len);
         one("calldata-as-long-as-a-list-of-the-access-list", i, format!("{name},same-length-as={},delta={d},long-form={}", ["access-list", "entry", "key-list"][which], len >= 56), &tx, &sigs()[(i % 5) as usize]);
     });
+    // the CORNERS of the width space: every subset of the numeric fields at (nearly) full width at once, the others small. A
+    // sweep that widens one field at a time never has four 32-byte quantities in one transaction; anything sized for "a
+    // typical head" (a fixed buffer, a one-byte length) is met only in the corners
+    let wide = |bytes: usize, tag: u8| { let mut b = vec![0xffu8; bytes]; b[bytes - 1] = tag; Nat::from_be_bytes(&b) };
+    ctx.sweep("quantity-width-corners", "3 kinds x every subset of the 6 numeric fields (chain id, nonce, price / priority fee, max fee, gas limit, value) set to 32-byte and to 29-byte values at once, the rest small, 2 signature widths", (3 * 64 * 2) as u64, |i| {
+        let (k, name) = kinds()[i as usize % 3]; let mask = (i as usize / 3) % 64; let bytes = if i as usize / 192 == 0 { 32 } else { 29 };
+        let mut tx = txjson::template(k, true);
+        if mask & 1 != 0 { tx.chain_id = Some(if k == Kind::Legacy { wide(bytes.min(31), 1) } else { wide(bytes, 1) }); } if mask & 2 != 0 { tx.nonce = wide(bytes, 2); } if mask & 4 != 0 { tx.gas_price = wide(bytes, 3); tx.max_priority = wide(bytes, 3); }
+        if mask & 8 != 0 { tx.max_fee = wide(bytes, 4); } if mask & 16 != 0 { tx.gas = wide(bytes, 5); } if mask & 32 != 0 { tx.value = wide(bytes, 6); }
+        one("quantity-width-corners", i, format!("{name},wide-fields={},width={bytes}", mask.count_ones()), &tx, &sigs()[(i % 5) as usize]);
+    });
     // EQUAL elements inside one list: the same address in two entries (adjacent and apart, same and different keys), the same
     // key twice in one entry, the same key under two addresses, an entry equal to the recipient - every element is encoded,
     // in order, as often as it occurs (distinct transactions never share an encoding)
